@@ -93,6 +93,13 @@ def mapper_node_pairs(model: Model, mapper: ClassInfo, nodes=None):
         if n.mapper_method is None:
             continue
         res, chain, mem = resolve_handler(model, mapper, n)
+        # an override that only passes the call on to the next definition in
+        # the MRO does not change which definition does the work
+        if mem is not None and mem.kind == "func" and \
+                _is_pass_through(mem, mem.node.name):
+            eff = effective_member(model, mapper, mem.node.name)
+            if eff is not None:
+                mem = eff
         out.append((n, res, chain, mem))
     return out
 
@@ -785,8 +792,37 @@ def _covered_fields(rv, kinds, allow_none_filter=True):
 # D4 helper
 # ---------------------------------------------------------------------------
 
-def is_raising(mem) -> bool:
-    return mem is not None and mem.kind == "func" and always_raises(mem.node)
+def is_raising(mem, _depth=0) -> bool:
+    """every path of the method raises -- directly, or by handing over to a
+    private helper of the same class that itself always raises
+    (`return self._refuse(expr)`)"""
+    if mem is None or mem.kind != "func":
+        return False
+    if always_raises(mem.node):
+        return True
+    if _depth > 2:
+        return False
+    body = body_without_docstring(mem.node)
+    if len(body) != 1:
+        return False
+    st = body[0]
+    call = st.value if isinstance(st, (ast.Return, ast.Expr)) else None
+    # (private helpers only: a public method may be overridden by the class
+    # the handler is finally used in -- CombineMapper.combine is abstract)
+    if isinstance(call, ast.Call) and isinstance(call.func, ast.Attribute) and \
+            isinstance(call.func.value, ast.Name) and \
+            call.func.attr.startswith("_") and \
+            not call.func.attr.startswith("__") and \
+            call.func.value.id == (mem.node.args.args[0].arg
+                                   if mem.node.args.args else "self"):
+        h = None
+        k = mem.owner
+        for kk in [k] + [b for b in getattr(k, "_mro_cache", [])]:
+            if hasattr(kk, "members") and call.func.attr in kk.members:
+                h = kk.members[call.func.attr]
+                break
+        return h is not None and is_raising(h, _depth + 1)
+    return False
 
 
 # ---------------------------------------------------------------------------
@@ -1141,3 +1177,88 @@ def rebuild_state_agrees(cls, builder="_compile"):
         or e.args == tuple(("index", ST, i) for i in range(len(params)))
         for e in calls)
     return ok and good, attrs
+
+
+# ---------------------------------------------------------------------------
+# an entry-point override that only wraps the inherited one
+
+def call_wrapper_result(mem):
+    """If *mem* (an override of __call__) hands its expression, on every
+    returning path, exactly once and with everything it was given, to the
+    inherited __call__ and does no recursion of its own: the set of values it
+    returns (abstract), else None.  Such an override does not change how nodes
+    are dispatched or memoized (rec stays bound to the inherited routine)."""
+    if mem.kind != "func":
+        return None
+    sig = signature(mem.node)
+    out = set()
+    for ps in summarize(mem.node):
+        if ps.term == "raise":
+            continue
+        if ps.term not in ("return", "end"):
+            return None
+        ups = [e for e in ps.events if e.kind in ("supercall", "basecall")
+               and e.name == "__call__"]
+        recs = [e for e in ps.events if e.kind in ("rec", "selfcall")
+                and e.name in ("rec", "__call__", "rec_fallback")]
+        if len(ups) != 1 or recs:
+            return None
+        e = ups[0]
+        if e.arg != NODE:
+            return None
+        if sig.vararg is not None and not e.fwd_args:
+            return None
+        if sig.kwarg is not None and not e.fwd_kwargs:
+            return None
+        out.add(ps.retval if ps.term == "return" else ("const", None))
+    return out or None
+
+
+def effective_member(model, cls, name):
+    """model.lookup(cls, name), looking through overrides that only pass the
+    call on to the next definition in the MRO: every returning path returns
+    super().<name>(node, *everything received), possibly copied into a fresh
+    container of the same kind (set(...), list(...), ...).  Such an override
+    does not change which definition does the work."""
+    mro = [k for k in model.mro(cls) if hasattr(k, "members")]
+    i = 0
+    while i < len(mro):
+        k = mro[i]
+        mem = k.members.get(name)
+        if mem is None:
+            i += 1
+            continue
+        if mem.kind != "func" or not _is_pass_through(mem, name):
+            return mem
+        i += 1          # look at the next definition after this class
+    return None
+
+
+def _is_pass_through(mem, name):
+    sig = signature(mem.node)
+    rets = 0
+    for ps in summarize(mem.node):
+        if ps.term == "raise":
+            continue
+        if ps.term != "return":
+            return False
+        rv = ps.retval
+        if isinstance(rv, tuple) and rv[0] == "copy":
+            rv = rv[1]
+        if isinstance(rv, tuple) and rv[0] == "call" and rv[1] in (
+                "set", "frozenset", "list", "tuple", "dict") and len(rv[2]) == 1:
+            rv = rv[2][0]
+        if not (isinstance(rv, tuple) and rv[0] == "call"
+                and rv[1] == f"super.{name}" and rv[2][:1] == (NODE,)):
+            return False
+        ups = [e for e in ps.events if e.kind == "supercall" and e.name == name]
+        if len(ups) != 1:
+            return False
+        if sig.vararg is not None and not ups[0].fwd_args:
+            return False
+        if sig.kwarg is not None and not ups[0].fwd_kwargs:
+            return False
+        if any(e.kind == "rec" for e in ps.events):
+            return False
+        rets += 1
+    return rets > 0
